@@ -19,8 +19,8 @@ PROFILES = {
     "C04": {"g1": 0.8, "w": {"create": 6, "delete": 3, "addprefix": 3, "rmprefix": 3, "moveprefix": 2}, "r": {"resolution": 8, "global": 2}},
     "C05": {"g1": 0.85, "w": {"create": 5, "addprefix": 2}, "r": {"pages": 8, "resolution": 2, "global": 2}},
     "C06": {"g1": 1.0, "init_rules": 0.8, "w": {"addrule": 5, "rmrule": 1, "addpage": 8}, "r": {"resolution": 6, "global": 3}},
-    "C07": {"g1": 0.9, "w": {"addlinks": 7, "batch": 5, "create": 4}, "r": {"network": 8}},
-    "C08": {"g1": 0.9, "w": {"addlinks": 7, "batch": 5, "create": 4}, "r": {"welinks": 8}},
+    "C07": {"g1": 0.9, "big_ids": 0.12, "w": {"addlinks": 7, "batch": 5, "create": 4}, "r": {"network": 8}},
+    "C08": {"g1": 0.9, "big_ids": 0.08, "w": {"addlinks": 7, "batch": 5, "create": 4}, "r": {"welinks": 8}},
     "C09": {"g1": 0.9, "w": {"addpage": 10, "addpages": 4, "create": 3}, "r": {"paginate": 8, "pages": 1, "helpers": 1}},
     "C10": {"g1": 0.9, "w": {"addlinks": 8, "batch": 5, "addpage": 5, "create": 3}, "r": {"paginatelinks": 8, "helpers": 2}},
     "C11": {"w": {"reopen": 4, "clear": 1.2}, "read_rate": 0.7},
@@ -177,7 +177,9 @@ def in_slice(prop, m, lines):
         return prop in KIND_PROPS.get(kind, [])
     if kind == "hash":
         return prop in BYTE_PROPS
-    # answers of write requests
+    # answers of write requests (a generator drained by hand answers "done <report>")
+    if m.impl.startswith("done ") and m.mdl.startswith("done "):
+        m = corr.Mismatch(m.idx, m.line, m.what, m.impl[5:], m.mdl[5:], m.backend)
     if m.impl.startswith("ok pages=") and m.mdl.startswith("ok pages="):
         pi, pm = m.impl.split(" we=")[0], m.mdl.split(" we=")[0]
         if pi != pm and prop == "C01":
